@@ -228,6 +228,12 @@ impl Report {
             );
             return 0;
         }
+        {
+            let mut keys: Vec<&str> = new_v.iter().map(|v| v.key.as_str()).collect();
+            keys.sort();
+            keys.dedup();
+            println!("ALL-VIOLATION-KEYS property={} count={}: {}", self.prop, keys.len(), keys.join(" | "));
+        }
         let rdir = PathBuf::from(format!("{}/replays/{}", VERIF_DIR, self.prop));
         let _ = std::fs::create_dir_all(&rdir);
         // distinct keys first, at most 10 replay files
